@@ -138,6 +138,117 @@ struct EarlyEval
 };
 static EarlyEval g_early;
 #endif
+#if !defined(VW) && !defined(C01_AS_LIB)
+// ---- the operation inlined into a LEAF function.  The library's operations are inline asm wrappers; once inlined into a function
+// that makes no calls, the compiler keeps that function's locals in the red zone below the stack pointer and in whatever registers
+// the asm does not declare as clobbered -- a context the ordinary harness (which calls printf, gmp, the reporter) never offers.
+// The leaf computes d = x - y, r = OP(d [, z]), t = d + w0 with twelve more live locals, and stores everything for main() to check.
+template <int OP> __attribute__((noinline)) static void leaf_ctx(const u64 *in, u64 *outv)
+{
+    E w[14];
+    for (int i = 0; i < 14; i++) w[i].fe = in[i];
+    E d = Goldilocks::sub(w[12], w[13]);
+    E r;
+    if (OP == ADD) r = Goldilocks::add(d, w[11]);
+    else if (OP == SUB) r = Goldilocks::sub(d, w[11]);
+    else if (OP == MUL) r = Goldilocks::mul(d, w[11]);
+    else if (OP == SQUARE) r = Goldilocks::square(d);
+    else if (OP == NEG) r = Goldilocks::neg(d);
+    else if (OP == INC) r = Goldilocks::inc(d);
+    else r = Goldilocks::dec(d);
+    E t = Goldilocks::add(d, w[0]);
+    outv[0] = r.fe;
+    outv[1] = d.fe;
+    outv[2] = t.fe;
+    u64 acc = 0;
+    for (int i = 0; i < 14; i++) acc += w[i].fe * (u64)(2 * i + 1);
+    outv[3] = acc;
+}
+// second shape: a block routine with a local array of NBK differences (NBK*8 bytes: up to the 128 bytes of the red zone), filled in
+// one loop and consumed in another through the reference overloads
+template <int OP, int NBK> __attribute__((noinline)) static void leaf_block(E *out, const E *x)
+{
+    E d[NBK];
+    for (int j = 0; j < NBK; j++) Goldilocks::sub(d[j], x[j], x[(j + 1) % NBK]);
+    for (int j = 0; j < NBK; j++)
+    {
+        if (OP == ADD) Goldilocks::add(out[j], d[j], x[j]);
+        else if (OP == SUB) Goldilocks::sub(out[j], d[j], x[j]);
+        else if (OP == MUL) Goldilocks::mul(out[j], d[j], x[j]);
+        else if (OP == SQUARE) Goldilocks::square(out[j], d[j]);
+        else if (OP == NEG) Goldilocks::neg(out[j], d[j]);
+        else if (OP == INC) out[j] = Goldilocks::inc(d[j]);
+        else out[j] = Goldilocks::dec(d[j]);
+    }
+}
+template <int OP> static void leaf_block_n(int nbk, E *out, const E *x)
+{
+    switch (nbk)
+    {
+    case 4: leaf_block<OP, 4>(out, x); break;
+    case 8: leaf_block<OP, 8>(out, x); break;
+    case 12: leaf_block<OP, 12>(out, x); break;
+    case 15: leaf_block<OP, 15>(out, x); break;
+    default: leaf_block<OP, 16>(out, x); break;
+    }
+}
+static std::string leaf_block_check(int op, int nbk, u64 x0, u64 y0)
+{
+    E x[16], out[16];
+    for (int i = 0; i < 16; i++) x[i].fe = (i % 3 == 0) ? x0 + (u64)i : (i % 3 == 1) ? y0 - (u64)i : (0x9E3779B97F4A7C15ULL * (u64)(i + 1));
+    switch (op)
+    {
+    case ADD: leaf_block_n<ADD>(nbk, out, x); break;
+    case SUB: leaf_block_n<SUB>(nbk, out, x); break;
+    case MUL: leaf_block_n<MUL>(nbk, out, x); break;
+    case SQUARE: leaf_block_n<SQUARE>(nbk, out, x); break;
+    case NEG: leaf_block_n<NEG>(nbk, out, x); break;
+    case INC: leaf_block_n<INC>(nbk, out, x); break;
+    case DEC: leaf_block_n<DEC>(nbk, out, x); break;
+    default: return "";
+    }
+    for (int j = 0; j < nbk; j++)
+    {
+        u64 d = F.sub(x[j].fe, x[(j + 1) % nbk].fe), z = x[j].fe;
+        u64 ex = op == ADD ? F.add(d, z % PR) : op == SUB ? F.sub(d, z) : op == MUL ? F.mul(d, z) : op == SQUARE ? F.mul(d, d) : op == NEG ? F.neg(d) : op == INC ? F.add(d, 1) : F.sub(d, 1);
+        if (out[j].fe % PR != ex) return fmt("block of %d: element %d got %s expected %s", nbk, j, hex(out[j].fe).c_str(), hex(ex).c_str());
+    }
+    return "";
+}
+static void leaf_inputs(u64 x, u64 y, u64 *in)
+{
+    for (int i = 0; i < 14; i++) in[i] = (0x9E3779B97F4A7C15ULL * (u64)(i + 1)) % PR;
+    in[12] = x;
+    in[13] = y;
+    in[11] = (x ^ 0x5555555555555555ULL) | 1;
+}
+// returns "" or the description of the first discrepancy
+static std::string leaf_check(int op, u64 x, u64 y)
+{
+    u64 in[14], o[4] = {0, 0, 0, 0};
+    leaf_inputs(x, y, in);
+    switch (op)
+    {
+    case ADD: leaf_ctx<ADD>(in, o); break;
+    case SUB: leaf_ctx<SUB>(in, o); break;
+    case MUL: leaf_ctx<MUL>(in, o); break;
+    case SQUARE: leaf_ctx<SQUARE>(in, o); break;
+    case NEG: leaf_ctx<NEG>(in, o); break;
+    case INC: leaf_ctx<INC>(in, o); break;
+    case DEC: leaf_ctx<DEC>(in, o); break;
+    default: return "";
+    }
+    u64 d = F.sub(x, y), z = in[11];
+    u64 exr = op == ADD ? F.add(d, z % PR) : op == SUB ? F.sub(d, z) : op == MUL ? F.mul(d, z) : op == SQUARE ? F.mul(d, d) : op == NEG ? F.neg(d) : op == INC ? F.add(d, 1) : F.sub(d, 1);
+    u64 ext = F.add(d, in[0] % PR), acc = 0;
+    for (int i = 0; i < 14; i++) acc += in[i] * (u64)(2 * i + 1);
+    if (o[0] % PR != exr) return fmt("result of the operation: got %s expected %s", hex(o[0]).c_str(), hex(exr).c_str());
+    if (o[1] % PR != d) return fmt("the operand x-y, read back after the operation: got %s expected %s", hex(o[1]).c_str(), hex(d).c_str());
+    if (o[2] % PR != ext) return fmt("a later addition that uses the operand again: got %s expected %s", hex(o[2]).c_str(), hex(ext).c_str());
+    if (o[3] != acc) return std::string("one of the caller's other local elements changed across the operation");
+    return "";
+}
+#endif
 struct SigTab
 {
     std::mutex mu;
@@ -201,6 +312,15 @@ static int run_one(const std::string &cs_)
     std::string when = cs(m, "when", "");
 #if !defined(VW) && !defined(C01_AS_LIB)
     if (when == "static-init" && !g_early.lookup(op, a, b, r)) { printf("INFO replay: pair not in the static-initialisation set\n"); return 0; }
+    if (when == "leaf")
+    {
+        int nbk = (int)cu(m, "block", 0);
+        std::string f = nbk ? leaf_block_check(op, nbk, a, b) : leaf_check(op, a, b);
+        rep().stat("evaluations");
+        if (!f.empty()) rep().viol(fmt("C01.wrong.%s.leaf-context.w%u", opname[op], W), casestr(op, 0, a, b) + " when=leaf" + (nbk ? fmt(" block=%d", nbk) : std::string()), f);
+        rep().flush();
+        return 0;
+    }
 #endif
     E e;
     e.fe = r;
@@ -371,6 +491,34 @@ int main(int argc, char **argv)
         total_evals += n;
         total_cases += n;
         rep().stat("static_init_evaluations", n);
+    }
+#endif
+#ifndef C01_AS_LIB
+    // every operation inlined into a leaf function (leaf_ctx), x and y over all ordered pairs of the same boundary words
+    {
+        long long n = 0;
+        for (int op = 0; op < NOPS; op++)
+        {
+            if (op == MULSCALAR) continue; // not an inline wrapper
+            for (u64 a : g_early.A)
+                for (u64 b : g_early.A)
+                {
+                    std::string f = leaf_check(op, a, b);
+                    n++;
+                    if (!f.empty()) { rep().viol(fmt("C01.wrong.%s.leaf-context.w%u", opname[op], W), casestr(op, 0, a, b) + " when=leaf", f); break; }
+                    bool stop = false;
+                    for (int nbk : {4, 8, 12, 15, 16})
+                    {
+                        std::string g = leaf_block_check(op, nbk, a, b);
+                        n++;
+                        if (!g.empty()) { rep().viol(fmt("C01.wrong.%s.leaf-context.w%u", opname[op], W), casestr(op, 0, a, b) + " when=leaf" + fmt(" block=%d", nbk), g); stop = true; break; }
+                    }
+                    if (stop) break;
+                }
+        }
+        total_evals += n;
+        total_cases += n;
+        rep().stat("leaf_context_evaluations", n);
     }
 #endif
     // products landing in the non-canonical band [p, 2^64)
